@@ -299,6 +299,12 @@ func Gen(seed int64, index int, o GenOpts) *Case {
 	}
 	if chance(0.3) {
 		c.Query = []string{"token=abc", "a=1&b=2", "k=v%20w"}[pick(3)]
+		if (uint64(seed)+uint64(index)/3)%7 == 3 {
+			// a query with characters that a client sent unescaped (a double quote, a comma, a space
+			// encoded as "+"): whatever the muxer copies into a quoted URI attribute must be escaped
+			c.Query = []string{`user=john&token=a"b`, `q=x,y"z&n=1`, `t=a+b"c`}[(uint64(seed)+uint64(index))%3]
+			c.Features["query-with-quote"] = true
+		}
 	}
 
 	// ---- timing plans
